@@ -6,6 +6,7 @@ CONSTANTS
   MaxPend = 3
   Horizon = 3
   HeadCheck = TRUE
+  PlainBase = 10
   MaxHold = 0
   CritOn = TRUE
   ExportOn = TRUE
